@@ -85,8 +85,9 @@ Record oacc := {
   regs : list (N * N * N);                   (* (waiter, hash, nonce) of the registrations so far *)
   nonces : list N;                           (* confirmed nonces the node has reported so far *)
   curp : option (N * reply);                 (* element announced by ObsProc, consumed by the next Proc *)
-  bans : list (N * reply);                   (* (hash, answer) of every batch reply element received so far *)
-  sans : list (N * reply);                   (* (hash, answer) of every individual query answered so far *)
+  bans : list (option N * N * reply);        (* (confirmed nonce of the check that asked, hash, answer) of every batch element received so far;
+                                                None: no check was due when the batch came back *)
+  sans : list (option N * N * reply);        (* the same for the individual queries *)
   closing : bool;                            (* Close seen *)
   watch_ok : list (N * bool);                (* WaitForReceipt callers: may this call be refused? *)
   bad : list string                          (* truthfulness clauses violated by an ObsOut *)
@@ -110,13 +111,17 @@ Definition is_notfound (r : reply) : bool := match r with RNotFound => true | _ 
 (* What the node has answered FOR HASH h so far, at the wire: elements of the batch replies received
    (batch part [bs]) and answers to individual queries for h (part [ss], the hash being the one
    announced by ObsProc). *)
-Definition said_receipt (bs ss : list (N * reply)) (h st : N) : bool :=
-  existsb (fun e => (fst e =? h) && is_rcpt st (snd e)) (bs ++ ss).
-Definition said_any_receipt (bs ss : list (N * reply)) (h : N) : bool :=
-  existsb (fun e => (fst e =? h) && match snd e with RReceipt _ => true | _ => false end) (bs ++ ss).
-(* "no receipt": the sentinel or null in a batch, NotFound to the individual query *)
-Definition said_none (bs ss : list (N * reply)) (h : N) : bool :=
-  existsb (fun e => (fst e =? h) && no_receipt (snd e)) bs || existsb (fun e => (fst e =? h) && is_notfound (snd e)) ss.
+Definition said_receipt (bs ss : list (option N * N * reply)) (h st : N) : bool :=
+  existsb (fun e => let '(_, h', r) := e in (h' =? h) && is_rcpt st r) (bs ++ ss).
+Definition said_any_receipt (bs ss : list (option N * N * reply)) (h : N) : bool :=
+  existsb (fun e => let '(_, h', r) := e in (h' =? h) && match r with RReceipt _ => true | _ => false end) (bs ++ ss).
+(* "no receipt" for (h, nonce n): the sentinel or null in a batch, NotFound to the individual query,
+   asked by a check whose confirmed nonce c -- the one reported to the poll that handed this check
+   over -- is above n *)
+Definition passed (n : N) (c : option N) : bool := match c with Some c => n <? c | None => false end.
+Definition said_none (bs ss : list (option N * N * reply)) (h n : N) : bool :=
+  existsb (fun e => let '(c, h', r) := e in (h' =? h) && no_receipt r && passed n c) bs ||
+  existsb (fun e => let '(c, h', r) := e in (h' =? h) && is_notfound r && passed n c) ss.
 
 Fixpoint tx_of (w : N) (ws : list (N * N * N)) : option (N * N) :=
   match ws with
@@ -132,7 +137,7 @@ Definition out_ok (a : oacc) (w : N) (o : wout) : option string :=
       match o with
       | OReceipt h' st => if (h' =? h) && said_receipt (bans a) (sans a) h st then None else Some "false-receipt"%string
       | OCancelled =>
-          if existsb (fun c => n <? c) (nonces a) && said_none (bans a) (sans a) h then None else Some "false-cancel"%string
+          if said_none (bans a) (sans a) h n then None else Some "false-cancel"%string
       | OClosed => if closing a then None else Some "closed-before-close"%string
       end
   end.
@@ -203,7 +208,8 @@ Definition oset (a : oacc) nid' sents' regs' nonces' curp' bans' sans' closing' 
   {| nid := nid'; sents := sents'; regs := regs'; nonces := nonces'; curp := curp'; bans := bans'; sans := sans';
      closing := closing'; watch_ok := watch_ok'; bad := bad' |}.
 
-Definition step_obs (a : oacc) (it : item) : oacc :=
+Definition step_obs (s : mon) (a : oacc) (it : item) : oacc :=
+  let cur := match chk s with InFlight c _ _ => if panicked s then None else Some c | _ => None end in
   match it with
   | Ev (Sent h n) => oset a (nid a) ((h, n) :: sents a) (regs a) (nonces a) (curp a) (bans a) (sans a) (closing a) (watch_ok a) (bad a)
   | Ev (InternalWatch h n) | Ev (WatchRaw h n) =>
@@ -216,10 +222,10 @@ Definition step_obs (a : oacc) (it : item) : oacc :=
   | Ev (Poll (Some _) (Some c) _) =>
       oset a (nid a) (sents a) (regs a) (c :: nonces a) (curp a) (bans a) (sans a) (closing a) (watch_ok a) (bad a)
   | Ev (BatchReply rs) =>
-      oset a (nid a) (sents a) (regs a) (nonces a) (curp a) (rs ++ bans a) (sans a) (closing a) (watch_ok a) (bad a)
+      oset a (nid a) (sents a) (regs a) (nonces a) (curp a) (map (fun hr => (cur, fst hr, snd hr)) rs ++ bans a) (sans a) (closing a) (watch_ok a) (bad a)
   | Ev (Proc fb) =>
       match curp a, fb with
-      | Some (h, _), Some r => oset a (nid a) (sents a) (regs a) (nonces a) None (bans a) ((h, r) :: sans a) (closing a) (watch_ok a) (bad a)
+      | Some (h, _), Some r => oset a (nid a) (sents a) (regs a) (nonces a) None (bans a) ((cur, h, r) :: sans a) (closing a) (watch_ok a) (bad a)
       | _, _ => oset a (nid a) (sents a) (regs a) (nonces a) None (bans a) (sans a) (closing a) (watch_ok a) (bad a)
       end
   | Ev Close => oset a (nid a) (sents a) (regs a) (nonces a) (curp a) (bans a) (sans a) true (watch_ok a) (bad a)
@@ -231,7 +237,11 @@ Definition step_obs (a : oacc) (it : item) : oacc :=
       end
   | _ => a
   end.
-Definition oreplay (c : case) : oacc := fold_left step_obs (items c) ostart.
+(* both accumulators side by side: the observation-level one reads the confirmed nonce of the check in
+   flight from the model run alongside (state BEFORE the item) *)
+Definition both (c : case) : acc * oacc :=
+  fold_left (fun p it => (step_item (outs c) (fst p) it, step_obs (st (fst p)) (snd p) it)) (items c) (start, ostart).
+Definition oreplay (c : case) : oacc := snd (both c).
 
 (* ---- correspondence: model prediction = observation (projected observables only) --------- *)
 Definition agrees (c : case) : bool :=
